@@ -92,6 +92,8 @@ def make_scenario(case):
                 # a regular file where the combine task wants to put its link to its first dep with output
                 dep = [j for j in g[i] if kinds[j] in ("cmd", "exp", "combine")][0]
                 pre_tree[os.path.join("cond-out", pkgs[i], "t%d.task" % i, "t%d" % dep)] = "not a link\n"
+        if i in (case.get("quiet") or []):
+            b["quiet"] = True      # the task writes nothing into its output directory
         if kinds[i] == "exp":
             b.setdefault("stdout", "out-%d\n" % i)
         if b:
